@@ -19,6 +19,7 @@ import (
 	"context"
 	"encoding/json"
 	"fmt"
+	"reflect"
 	"github.com/golang/protobuf/ptypes/wrappers"
 	"mosn.io/api"
 	"sort"
@@ -115,6 +116,9 @@ func c12Probe(rt types.Routers, host, path string) string {
 	ctx := variable.NewVariableContext(context.Background())
 	_ = variable.SetString(ctx, types.VarHost, host)
 	_ = variable.SetString(ctx, types.VarPath, path)
+	if rt == nil || reflect.ValueOf(rt).IsNil() {
+		return "<none>" // a router configuration without a buildable route table serves no route
+	}
 	r := rt.MatchRoute(ctx, protocolCommonHeader(map[string]string{}))
 	if r == nil || r.RouteRule() == nil {
 		return "<none>"
@@ -201,7 +205,7 @@ func c12Updates(c *lab.Ctx) {
 		l := 1 + hrng.Intn(30)
 		var ops []string
 		for si := 0; si < l; si++ {
-			op := hrng.Intn(13)
+			op := hrng.Intn(14)
 			desc := ""
 			switch op {
 			case 0, 1: // add or update a router configuration
@@ -248,6 +252,15 @@ func c12Updates(c *lab.Ctx) {
 							}
 						}
 					}
+				}
+			case 13: // a router configuration without virtual hosts (what RDS sends first / an empty router posted to the debug API)
+				name := routerNames[hrng.Intn(len(routerNames))]
+				rc := &v2.RouterConfiguration{RouterConfigurationConfig: v2.RouterConfigurationConfig{RouterConfigName: name}}
+				mine := c12DeepCopy(rc)
+				err := rm.AddOrUpdateRouters(rc)
+				desc = fmt.Sprintf("router-update-empty(%s,err=%v)", name, err != nil)
+				if err == nil {
+					model.routers[name] = mine
 				}
 			case 4: // invalid router: duplicate domain
 				name := routerNames[hrng.Intn(len(routerNames))]
@@ -421,6 +434,35 @@ func c12Compare(c *lab.Ctx, model *c12Model, routerNames, clusterNames []string,
 		m := model.routers[name]
 		w := rm.GetRouterWrapperByName(name)
 		d := dumpRouters[name]
+		// (A) live vs fresh-from-dump, whatever the update history was: a router whose dumped configuration has no buildable
+		// route table (no virtual hosts yet, as RDS delivers it first) serves no route in a fresh MOSN, so it must serve none live
+		if w != nil || d != nil {
+			var liveA, freshA types.Routers
+			if w != nil {
+				liveA = w.GetRouters()
+			}
+			if d != nil {
+				if fr, err := router.NewRouters(c12DeepCopy(d)); err == nil {
+					freshA = fr
+				}
+			}
+			diff := ""
+			for _, h := range []string{"a.test", "b.test", "x.test", "other.org", "dup.test"} {
+				for _, p := range c12Paths {
+					if lv, fr := c12Probe(liveA, h, p), c12Probe(freshA, h, p); lv != fr && diff == "" {
+						diff = fmt.Sprintf("router %s, Host %s path %s: live routes to %s, a MOSN started from the dumped configuration (%d virtual hosts) routes to %s", name, h, p, lv, func() int {
+							if d == nil {
+								return -1
+							}
+							return len(d.VirtualHosts)
+						}(), fr)
+					}
+				}
+			}
+			if diff != "" {
+				c.Violation("dump-equals-live", "C12/router/live-vs-dump/after="+lastOp, diff, wit(""))
+			}
+		}
 		if m == nil {
 			continue // never (successfully) configured by this harness
 		}
